@@ -10,6 +10,11 @@
                  obs   = per goroutine, per call: dec inv; dec ret; dec #fields; rendered result.
      e_oracle = e_agree = C14_conc_ok: the history is linearizable w.r.t. TrackerSpec.sp_step
                 (no deterministic prediction exists; e_model returns ["lin"]).
+   kind "hammer": input = ["hammer"; note; me; dec #fields; setup; dec #fields; writer ops; dec R;
+                           dec #fields; query ops; dec cap]
+                 obs   = per recorded read: dec query index; dec lo; dec hi; dec #fields; rendered result.
+     e_oracle = e_agree = C14_hammer_ok (at least one read; every read matches some prefix of the
+                writer's calls within [lo, hi]).
    (std++ and GoBytes notations clash, hence the Tracker* modules are Required, not Imported.) *)
 From Verif Require Import EntryBase.
 From Verif Require TrackerSpec TrackerImpl TrackerObs TrackerAlias TrackerC14 LinCheck.
@@ -70,6 +75,7 @@ Fixpoint c14_dec_ops (l : list bytes) (st : c14_dstate) : option (list TrackerSp
 Definition t_alias : bytes := [97; 108; 105; 97; 115]%N.
 Definition t_conc : bytes := [99; 111; 110; 99]%N.
 Definition t_lin : bytes := [108; 105; 110]%N.
+Definition t_hammer : bytes := [104; 97; 109; 109; 101; 114]%N.
 
 (* ---------- alias ---------- *)
 Record c14alias := { ca_me : bytes; ca_U : TrackerObs.universe; ca_ops : list TrackerSpec.op }.
@@ -187,6 +193,76 @@ Definition conc_ok (c : c14conc) (o : list bytes) : bool :=
   | None => false
   end.
 
+(* ---------- hammer ---------- *)
+(* input (after the tag): note; me; #fields; setup; #fields; writer; R; #fields; queries; cap *)
+Definition take_section (l : list bytes) : option (list TrackerSpec.op * list bytes) :=
+  match l with
+  | nf :: rest =>
+      match c14_nat_of nf with
+      | Some k => if Nat.leb k (length rest)
+                  then match c14_dec_ops (firstn k rest) C14DOp with
+                       | Some ops => Some (ops, skipn k rest)
+                       | None => None
+                       end
+                  else None
+      | None => None
+      end
+  | [] => None
+  end.
+
+Record c14hammer := { ch_me : bytes; ch_setup : list TrackerSpec.op; ch_writer : list TrackerSpec.op;
+                      ch_queries : list TrackerSpec.op }.
+Definition decode_hammer (i : list bytes) : option c14hammer :=
+  match i with
+  | _note :: me :: r =>
+      match take_section r with
+      | Some (setup, r1) =>
+          match take_section r1 with
+          | Some (w, _R :: r2) =>
+              match take_section r2 with
+              | Some (qs, [_cap]) => Some {| ch_me := me; ch_setup := setup; ch_writer := w; ch_queries := qs |}
+              | _ => None
+              end
+          | _ => None
+          end
+      | None => None
+      end
+  | _ => None
+  end.
+
+(* reads: [query index; lo; hi; #fields; fields...]*; [fuel] >= number of reads *)
+Fixpoint dec_reads (fuel : nat) (qs : list TrackerSpec.op) (o : list bytes) : option (list TrackerC14.hread) :=
+  match o with
+  | [] => Some []
+  | fq :: flo :: fhi :: fn :: rest =>
+      match fuel with
+      | O => None
+      | S fuel' =>
+          match c14_nat_of fq, c14_nat_of flo, c14_nat_of fhi, c14_nat_of fn with
+          | Some qi, Some lo, Some hi, Some k =>
+              match nth_error qs qi with
+              | Some q =>
+                  if Nat.leb k (length rest) then
+                    match dec_reads fuel' qs (skipn k rest) with
+                    | Some rs => Some (TrackerC14.Build_hread q lo hi (firstn k rest) :: rs)
+                    | None => None
+                    end
+                  else None
+              | None => None
+              end
+          | _, _, _, _ => None
+          end
+      end
+  | _ => None
+  end.
+
+Definition hammer_ok (c : c14hammer) (o : list bytes) : bool :=
+  match dec_reads (length o) (ch_queries c) o with
+  | Some rs => negb (Nat.eqb (length rs) 0)
+               && TrackerC14.C14_hammer_ok (ch_me c) (ch_setup c) (ch_writer c) rs
+  | None => false
+  end.
+
 (* ---------- the entry ---------- *)
 Definition model_C14 (i : list bytes) : list bytes :=
   match i with
@@ -197,6 +273,7 @@ Definition model_C14 (i : list bytes) : list bytes :=
         | None => [tag_bad]
         end
       else if beq k t_conc then [t_lin]
+      else if beq k t_hammer then [t_lin]
       else [tag_bad]
   | [] => [tag_bad]
   end.
@@ -212,6 +289,11 @@ Definition oracle_C14 (i o : list bytes) : bool :=
       else if beq k t_conc then
         match decode_conc r with
         | Some c => conc_ok c o
+        | None => false
+        end
+      else if beq k t_hammer then
+        match decode_hammer r with
+        | Some c => hammer_ok c o
         | None => false
         end
       else false
